@@ -221,6 +221,16 @@ def run(tier):
         res.broke('forbidden-token', '; '.join(hits[:10]))
     axioms = {}
     if ok:
+        gaxioms, gmissing, _ = common.lean_audit('C16')       # generic theorems (Props/C16.lean)
+        for thm, ax in sorted(gaxioms.items()):
+            res.obligations.append(thm)
+            if set(ax) <= common.STD_AXIOMS:
+                res.discharged.append(thm)
+            else:
+                res.broke('axioms:' + thm, 'depends on ' + ', '.join(ax))
+        for mth in gmissing:
+            res.obligations.append(mth)
+            res.broke('theorem:' + mth, 'not found by the audit')
         axioms, missing, (arc, tail) = common.lean_audit('C16', os.path.join('Gen', 'AuditC16.lean'))
         for thm, ax in axioms.items():
             if not set(ax) <= common.STD_AXIOMS:
